@@ -603,3 +603,13 @@ package ast
 //@   modifies Opt
 //@   ensures [kept C13] InnerOK(r.ruleUsesRules) && InnerOK(r.ruleUsedByRules)
 //@   safety C13
+
+// Optimize: the entry of -optimize-grammar (C13: no panic; its fixpoint loop's termination is NOT claimed).
+// (package-qualified header: the builder has an Optimize of its own and loads these contracts)
+//@ extern newGrammarOptimizer(protectedRules []string) (r *grammarOptimizer)
+//@   ensures r != nil && fresh(r) && OptOK(r) && r.rules != nil && InnerOK(r.ruleUsesRules) && InnerOK(r.ruleUsedByRules) && r.ruleUsesRules != r.ruleUsedByRules
+//@ func ast.Optimize(g *Grammar, alternateEntrypoints []string)
+//@   requires [node] g != nil && TreeWF()
+//@   modifies Tree, Opt
+//@   loop#1 invariant [ctx] r != nil && g != nil && TreeWF()
+//@   safety C13
